@@ -13,10 +13,131 @@ func newBig(s string) (*big.Int, bool) {
 	return new(big.Int).SetString(s, 10)
 }
 
-// loopCut handles arrival at a loop header that carries invariants.
+// loopCut handles arrival at a loop header that carries invariants: the work is done after the header's
+// phis have taken the values of the incoming edge (loopCutAfterPhis).
 func (ex *Exec) loopCut(st *State, fr *Frame, header *ssa.BasicBlock, ord int, spec *LoopSpec, back bool) bool {
-	ex.reject("loop invariants not supported yet")
-	return true
+	fr.Pending = &pendingCut{ord: ord, spec: spec, back: back, hdr: header}
+	return false
+}
+
+func (ex *Exec) invEnv(st *State, fr *Frame) *SpecEnv {
+	vars := map[string]Val{}
+	// the function's parameters keep denoting their entry values unless shadowed by a source-level name
+	if fr.Fn == ex.Fn {
+		for k, v := range ex.ParamVals {
+			vars[k] = v
+		}
+	}
+	return &SpecEnv{ex: ex, st: st, old: ex.Entry, vars: vars, pkg: fr.Fn.Pkg.Pkg, contract: ex.contractFor(fr.Fn), fr: fr}
+}
+
+// loopCutAfterPhis: on entry to the loop: prove the invariant, havoc everything the loop may change,
+// assume the invariant. On the back edge: prove the invariant and end the path.
+func (ex *Exec) loopCutAfterPhis(st *State, fr *Frame, pc *pendingCut) bool {
+	env := ex.invEnv(st, fr)
+	var inv []*Term
+	for _, c := range pc.spec.Invariants {
+		inv = append(inv, env.termBool(c.Expr))
+	}
+	suffix := ex.fnSuffix(fr)
+	if pc.back {
+		for i, t := range inv {
+			ex.Side = append(ex.Side, SideObl{Name: fmt.Sprintf("loop.%d.step.%d%s", pc.ord, i+1, suffix), PC: append([]*Term{}, st.PC...), Cond: t})
+		}
+		return true
+	}
+	for i, t := range inv {
+		ex.Side = append(ex.Side, SideObl{Name: fmt.Sprintf("loop.%d.init.%d%s", pc.ord, i+1, suffix), PC: append([]*Term{}, st.PC...), Cond: t})
+	}
+	// havoc: header phis
+	for _, ins := range pc.hdr.Instrs {
+		phi, ok := ins.(*ssa.Phi)
+		if !ok {
+			break
+		}
+		save := ex.Inputs
+		ex.resultMode = true
+		nv := ex.symVal(st, fmt.Sprintf("loop%d_%s_%d", pc.ord, phi.Comment, ex.nfreshNext()), phi.Type(), 1)
+		ex.resultMode = false
+		ex.Inputs = save
+		fr.Vals[phi] = nv
+		if phi.Comment != "" {
+			fr.Names[phi.Comment] = nameRef{V: nv}
+		}
+	}
+	// havoc memory written in the loop body
+	li := ex.loops(fr.Fn)
+	regions, big := false, false
+	cells := map[*Cell]bool{}
+	for _, b := range li.body[pc.hdr.Index] {
+		for _, ins := range b.Instrs {
+			switch x := ins.(type) {
+			case *ssa.Store:
+				root := x.Addr
+				for {
+					if fa, ok := root.(*ssa.FieldAddr); ok {
+						root = fa.X
+						continue
+					}
+					break
+				}
+				switch r := root.(type) {
+				case *ssa.IndexAddr:
+					// stores into an array allocated inside the loop body (varargs temporaries) touch no
+					// memory that exists at the cut
+					if al, ok := r.X.(*ssa.Alloc); ok && al.Block() != nil {
+						inLoop := false
+						for _, lb := range li.body[pc.hdr.Index] {
+							if lb == al.Block() {
+								inLoop = true
+							}
+						}
+						if inLoop {
+							continue
+						}
+					}
+					regions = true
+				default:
+					if pv, ok := fr.Vals[root].(PtrV); ok && pv.K == PCell {
+						cells[pv.Cell] = true
+					} else if pv, ok := fr.Vals[root].(PtrV); ok && pv.K == PElem {
+						regions = true
+					}
+				}
+			case *ssa.Call:
+				if _, isB := x.Common().Value.(*ssa.Builtin); isB {
+					if x.Common().Value.Name() == "copy" {
+						regions = true
+					}
+					continue
+				}
+				if f := x.Common().StaticCallee(); f != nil {
+					if c, ok := ex.P.CS.Funcs[funcKey(f)]; ok && (c.Pure || (len(c.Modifies) == 0 && !c.Inline)) {
+						continue
+					}
+				}
+				regions, big = true, true
+			}
+		}
+	}
+	for c := range cells {
+		if old, ok := st.Cells[c]; ok {
+			st.Cells[c] = ex.havocLike(st, old, "loopcell")
+		}
+	}
+	if regions {
+		for r, m := range st.Mem {
+			st.Mem[r] = ex.fresh("loopmem", m.S)
+		}
+	}
+	if big {
+		st.Big = ex.fresh("loopheap", st.Big.S)
+	}
+	env = ex.invEnv(st, fr)
+	for _, c := range pc.spec.Invariants {
+		st.assume(env.termBool(c.Expr))
+	}
+	return false
 }
 
 func bigRefOfModifies(ev *SpecEnv, e ast.Expr) *Term {
